@@ -14,6 +14,23 @@ def check(case):
             c = dict(case); c['T0'] = T0; c['program'] = True; c['N'] = N; c['dt'] = 0.05; c['A'] = 0.01
             c['coefficients'] = [T0, -(T0 + 60.0) / (0.05 * (N - 1))]          # linear programme below 0 K exactly at the last reported step
             cases.append(c)
+    if case.get('blowup'):
+        # scan of coarse two-step runs whose second state lands where exponentials overflow (Antoine pole at a few tens of kelvin,
+        # Arrhenius factors): every run must raise or report finite, admissible values
+        base = dict(case); base['N'] = 2
+        def T1(dt):
+            c = dict(base); c['dt'] = dt
+            try: return procs.run(c)[0].feed_temperature[1]
+            except Exception: return None
+        hi = 0.05
+        for _ in range(40):
+            t = T1(hi)
+            if t is None or not (t > 20): break
+            hi *= 1.6
+        lo = hi / 1.6 / 1.6
+        cases = []
+        for i in range(case.get('points', 240)):
+            c = dict(base); c['dt'] = lo + (hi - lo) * i / case.get('points', 240); cases.append(c)
     fails = []
     for c in cases:
         try:
@@ -27,8 +44,8 @@ def check(case):
             for nm in ('feed_compositions', 'permeate_composition'):
                 p = getattr(model, nm)[k].p
                 if not (0 <= p <= 1): fails.append("%s[%d].p = %r" % (nm, k, p))
-            for v in model.partial_fluxes[k] + (model.feed_evaporation_heat[k],):
-                if not math.isfinite(v): fails.append("non-finite flux/heat at step %d: %r" % (k, v))
+            for v in tuple(model.partial_fluxes[k]) + (model.feed_evaporation_heat[k], model.permeate_condensation_heat[k]) + tuple(q.value for q in model.permeances[k]):
+                if v is not None and not math.isfinite(v): fails.append("dt=%r: non-finite flux/heat/permeance reported at step %d: %r (T=%r)" % (c.get('dt'), k, v, T))
         if fails: break
     return fails[:6]
 
@@ -40,4 +57,7 @@ def corpus(seed, n):
         c['dt'] = 10 ** rng.uniform(0, 2.5); c['A'] = 10 ** rng.uniform(-0.5, 1); c['N'] = rng.randint(3, 6); out.append(c)
     for f in ('ideal_non_isothermal_process', 'non_ideal_non_isothermal_process'):
         out.append(dict(func=f, coarse=True, mode='vacuum', curves='one'))
+        for mode in ('vacuum', 'pressure', 'temperature'):
+            out.append(dict(func=f, blowup=True, mode=mode, curves='one', builtin='H2O_EtOH', A=0.4, m0=12.0, T0=333.15, x0=0.94, pp=0.6, Tp=293.15, P1=0.036, P2=0.00003, Ea1=19944.0, Ea2=110806.0,
+                            points=(100 if n < 40 else 400) if f.startswith('ideal') else (20 if n < 40 else 80)))
     return out
